@@ -8,8 +8,13 @@ use snap::raw::{Decoder as SnappyDecoder, Encoder as SnappyEncoder};
 use crate::verif_fs::{self as fs, File};
 #[cfg(not(kani))]
 use std::fs::{self, File};
+#[cfg(kani)]
+use crate::verif_fs::{IoError, Read, Seek, SeekFrom, Write};
+#[cfg(not(kani))]
 use std::io::Error as IoError;
+#[cfg(not(kani))]
 use std::io::{Read, Write};
+#[cfg(not(kani))]
 use std::io::{Seek, SeekFrom};
 use std::path::{Path, PathBuf};
 use std::sync::Arc;
